@@ -328,6 +328,40 @@ func HarnessC01Object() {
 	checkC01(&s, obj)
 }
 
+// F5b: two places where the library departs from draft 4 on purpose (both known findings):
+// members called "id" / "$schema" under additionalProperties:false, and a required member that is
+// absent but whose property schema carries a default.
+func HarnessC01ObjectSpecials() {
+	s := spec.Schema{}
+	obj := map[string]interface{}{}
+	if verifBool() {
+		s.Properties = map[string]spec.Schema{"a": {}}
+		s.AdditionalProperties = &spec.SchemaOrBool{Allows: false}
+		special := false
+		for _, k := range []string{"a", "id", "$schema", "x", "ids"} {
+			if verifBool() {
+				obj[k] = 1.0
+				special = special || k == "id" || k == "$schema"
+			}
+		}
+		verifKF("C01-KF-ID-SCHEMA-MEMBERS", special)
+	} else {
+		withDefault := spec.Schema{}
+		withDefault.Default = 1.0
+		s.Properties = map[string]spec.Schema{"a": withDefault, "b": {}}
+		s.Required = []string{"a", "b"}
+		if verifBool() {
+			obj["a"] = 2.0
+		}
+		if verifBool() {
+			obj["b"] = 2.0
+		}
+		_, hasA := obj["a"]
+		verifKF("C01-KF-DEFAULT-SATISFIES-REQUIRED", !hasA)
+	}
+	checkC01(&s, obj)
+}
+
 // F6: composition: allOf / anyOf / oneOf / not over the leaf family
 func HarnessC01Composition() {
 	s := spec.Schema{}
